@@ -306,6 +306,29 @@ def traceEv (w : World) (e : Nat) (a : Args) (r : Outcome) : List Ev :=
   | t :: _ => [Ev.trace t e a r]
   | [] => []
 
+/-- the bookkeeping of an accepted call (`run_actions`, mock.hpp:3081-3092): count, retire the
+    predecessors in every sequence, and on saturation leave the sequences and move to the
+    saturated list. -/
+def bookkeep (w : World) (o f e : Nat) (x : Exp) (m : Mock) : World :=
+  let cnt := x.count + 1
+  let w1 := w.retirePredecessors (.exp e) x.seqs
+  if cnt = x.hi then
+    let w2 := w1.retireOwn (.exp e) x.seqs
+    let m' := { m with active := fun g => if g = f then (m.active f).filter (· ≠ e) else m.active g
+                       saturated := fun g => if g = f then m.saturated f ++ [e] else m.saturated g }
+    (w2.setMock o m').setExp e { x with count := cnt, link := .saturated }
+  else w1.setExp e { x with count := cnt }
+
+/-- side effects in order, then (unless one threw) the RETURN/THROW expression. -/
+def actionEvents (e : Nat) (x : Exp) (a : Args) : List Ev × Outcome :=
+  let (fxEvs, thrown) := runEffects e a x.effects 0
+  match thrown with
+  | some exc => (fxEvs, .threw exc)
+  | none =>
+    match x.ret with
+    | some r => (fxEvs ++ [Ev.evalRet e], r a)
+    | none => (fxEvs, .void)
+
 /-- `mock_func` after `find` succeeded: `run_actions` + `return_value` + trace record. -/
 def runActions (w : World) (o f e : Nat) (x : Exp) (m : Mock) (a : Args) : World × List Ev :=
   if x.hi = 0 then
@@ -318,24 +341,8 @@ def runActions (w : World) (o f e : Nat) (x : Exp) (m : Mock) (a : Args) : World
       let r := (w.validateAll (.exp e) x.seqs).head?.getD (.seqNoMore 0 (.exp e))
       (w, [w.rep .fatal r] ++ w.traceEv e a (.threw .rep) ++ [.result (.threw .rep)])
     | some _ =>
-      let cnt := x.count + 1
-      let w1 := w.retirePredecessors (.exp e) x.seqs
-      let w2 :=
-        if cnt = x.hi then
-          let w2 := w1.retireOwn (.exp e) x.seqs
-          let m' := { m with active := fun g => if g = f then (m.active f).filter (· ≠ e) else m.active g
-                             saturated := fun g => if g = f then m.saturated f ++ [e] else m.saturated g }
-          (w2.setMock o m').setExp e { x with count := cnt, link := .saturated }
-        else w1.setExp e { x with count := cnt }
-      let (fxEvs, thrown) := runEffects e a x.effects 0
-      let res : List Ev × Outcome :=
-        match thrown with
-        | some exc => ([], .threw exc)
-        | none =>
-          match x.ret with
-          | some r => ([Ev.evalRet e], r a)
-          | none => ([], .void)
-      (w2, [Ev.ok w.reporter e] ++ fxEvs ++ res.1 ++ w.traceEv e a res.2 ++ [.result res.2])
+      let res := actionEvents e x a
+      (w.bookkeep o f e x m, [Ev.ok w.reporter e] ++ res.1 ++ w.traceEv e a res.2 ++ [.result res.2])
 
 /-- `mock_func` (mock.hpp:3372-3406). -/
 def callFn (w : World) (o f : Nat) (a : Args) : World × List Ev :=
